@@ -196,14 +196,16 @@ func c11Scenarios(tier string) []e1lib.Scenario {
 			}
 			add(timed.Cfg{Kind: "emit", Cap: cp, Freq: f, Mode: "lift", Mask: 0b0100, ConsGaps: []int{0, 0, 0, 0}, CancelAt: -1})
 		}
-		// a consumer that stays away for an hour of virtual time at one point: whatever timers the generator may use
+		// a consumer that stays away for seconds or minutes of virtual time at one point: whatever timers the generator may use
 		// internally, a slow consumer only delays the sequence
 		for at := 0; at <= 2; at++ {
-			gaps := []int{0, 0, 0, 0}
-			gaps[at] = 3600e9
-			add(timed.Cfg{Kind: "unfold", Cap: cp, Step: "inc", ConsGaps: gaps, CancelAt: -1})
-			add(timed.Cfg{Kind: "emit", Cap: cp, Freq: 3, Mode: "pure", ConsGaps: gaps, CancelAt: -1})
-			add(timed.Cfg{Kind: "emit", Cap: cp, Freq: 3, Mode: "try", Mask: 0b0101, ConsGaps: gaps, CancelAt: -1})
+			for _, away := range []int{3e9, 300e9} { // three seconds and five minutes (a timer of a second fires 3 / 300 times)
+				gaps := []int{0, 0, 0, 0}
+				gaps[at] = away
+				add(timed.Cfg{Kind: "unfold", Cap: cp, Step: "inc", ConsGaps: gaps, CancelAt: -1})
+				add(timed.Cfg{Kind: "emit", Cap: cp, Freq: 3, Mode: "pure", ConsGaps: gaps, CancelAt: -1})
+				add(timed.Cfg{Kind: "emit", Cap: cp, Freq: 3, Mode: "try", Mask: 0b0101, ConsGaps: gaps, CancelAt: -1})
+			}
 		}
 		for _, step := range []string{"inc", "dbl", "const"} {
 			for _, gaps := range gapScripts([]int{0, 2}, maxLen+1) {
